@@ -84,12 +84,14 @@ SP_PATS = ("full", "one", "empty")
 
 
 def hd(kind, shape, seed=0, salt=0, core=None):
-    """holder descriptor; kind in tensor | sp_full | sp_one | sp_empty | ktensor | ttensor | sumtensor"""
+    """holder descriptor; kind in tensor | sp_full | sp_one | sp_empty | sp_emptied | ktensor | ttensor | sumtensor"""
     shape = list(shape)
     n = prod(shape)
     if kind == "tensor":
         return {"kind": "tensor", "shape": shape, "vseed": seed + salt}
     if kind.startswith("sp_"):
+        if kind == "sp_emptied":      # all-zero, reached by removing every entry of a full tensor in place
+            return {"kind": "sptensor", "shape": shape, "pat": [1] * n, "vseed": seed + salt, "order": None, "emptied": True}
         pat = {"full": [1] * n, "one": [0] * (n - 1) + [1], "empty": [0] * n}[kind[3:]]
         return {"kind": "sptensor", "shape": shape, "pat": pat, "vseed": seed + salt, "order": None}
     if kind == "ktensor":
@@ -281,7 +283,7 @@ def mode_seq_kind(seq, n):
 
 
 def g_innerprod(tier, seed):
-    recvs = ["tensor", "sp_full", "sp_one", "sp_empty", "ktensor", "ttensor", "sumtensor"]
+    recvs = ["tensor", "sp_full", "sp_one", "sp_empty", "sp_emptied", "ktensor", "ttensor", "sumtensor"]
     others = ["tensor", "sp_full", "sp_empty", "ktensor", "ttensor"]
     if tier == "thorough":   # Tucker operands whose core is smaller than the tensor (other code path)
         recvs.append("ttensor_c1")
@@ -312,7 +314,7 @@ def g_elementwise(tier, seed):
         mm = mismatches(s)
         alts = [("control", s, None)] + [("shape", t, k) for k, t in mm]
         # sparse receiver
-        for rk in ("sp_full", "sp_one", "sp_empty"):
+        for rk in ("sp_full", "sp_one", "sp_empty", "sp_emptied"):
             for opn, oks in SP_EW.items():
                 for okc in oks:
                     okinds = {"sptensor": ["sp_full", "sp_empty"] + (["sp_one"] if thorough else []),
@@ -321,10 +323,6 @@ def g_elementwise(tier, seed):
                         for var, t, mk in alts:
                             c = C("elementwise", "sptensor." + opn, var, hd(rk, s, seed), [A_h(ok, t, seed, 1)],
                                   rk=rk, other=ok, shape=list(s), shape2=list(t), mk=mk)
-                            if var == "control" and rk == "sp_empty" and ok == "ktensor":
-                                # the valid call itself fails on the pinned tree (IndexError: a sparse tensor
-                                # without stored entries times/over a Kruskal tensor); not a rejection issue
-                                c["inadm"] = "empty sptensor (*|/) ktensor crashes"
                             yield c
             # mask: the mask may be smaller but not bigger in any mode, and must have the same order
             for ok in ("sp_full", "sp_one", "sp_empty"):
@@ -388,7 +386,7 @@ def g_elementwise(tier, seed):
                     shape=sh, shape2=sh, recv_arg=0)
 
 
-TTV_HOLDERS = ("tensor", "sp_full", "sp_empty", "ktensor", "ttensor", "sumtensor")
+TTV_HOLDERS = ("tensor", "sp_full", "sp_empty", "sp_emptied", "ktensor", "ttensor", "sumtensor")
 
 
 def _wrong_lengths(sn):
@@ -469,7 +467,7 @@ def g_ttv(tier, seed):
             yield C("ttv", op, "count", r, [A_list(allv + [A_vec(s[-1])])], form="all", m=n + 1, **info)
 
 
-TTM_HOLDERS = ("tensor", "sp_full", "sp_empty", "ttensor")
+TTM_HOLDERS = ("tensor", "sp_full", "sp_empty", "sp_emptied", "ttensor")
 
 
 def g_ttm(tier, seed):
@@ -532,7 +530,7 @@ def g_ttm(tier, seed):
                 yield C("ttm", op, "count", r, [A_list([A_mat(2, s[0])]), A_ints([0, 1])], form="list", m=1, **info)
 
 
-MTTKRP_HOLDERS = ("tensor", "sp_full", "sp_empty", "ktensor", "ttensor", "sumtensor")
+MTTKRP_HOLDERS = ("tensor", "sp_full", "sp_empty", "sp_emptied", "ktensor", "ttensor", "sumtensor")
 
 
 def g_mttkrp(tier, seed):
